@@ -278,10 +278,18 @@ def _run_merge(desc):
                     continue
                 lab = np.array(assign, dtype=np.int64)
                 nl = len(used)
-                for sf in (None, scale):
+                # the per-frame motor / monitor arrays in other memory layouts too (a transposed [frame, scan] array, a view of a wider
+                # one): the flat frame number scan*nframes+frame refers to the logical (row-major) order
+                big = np.zeros((3, 8)); big[:, ::2] = scale
+                layouts = [("C", omega, dty, scale)]
+                if idx % 3 == 0:
+                    layouts += [("F", np.asfortranarray(omega), np.asfortranarray(dty), np.asfortranarray(scale)),
+                                ("F-scale-only", omega, dty, np.asfortranarray(scale)),
+                                ("strided-view", omega, np.asfortranarray(dty), big[:, ::2])]
+                for lname, omega_l, dty_l, sf in [(ln, o_, d_, s_) for (ln, o_, d_, sc_) in layouts for s_ in (None, sc_)]:
                     t = P.pks_table(pk_props=props, glabel=lab, nlabel=nl, ipk=np.array([0, npk]))
-                    case = {"kind": "merge", "labels": list(assign), "table": tables.index(tab), "scale": sf is not None}
-                    got = t.pk2dmerge(omega, dty, scale_factor=sf)
+                    case = {"kind": "merge", "labels": list(assign), "table": tables.index(tab), "scale": sf is not None, "layout": lname}
+                    got = t.pk2dmerge(omega_l, dty_l, scale_factor=sf)
                     w = np.ones(npk) if sf is None else sf.flat[props[4]]
                     sI = props[1] * w
                     want = {
@@ -327,7 +335,7 @@ def _run_merge(desc):
                                 sh.violation("pk2dmerge:schedule-dependent-accumulation", case, {"terminal": np.array(bad[0]).reshape(7, nl), "expected": real,
                                                                                                "n_terminals": len(r["terminals"])})
                     # 2-D table
-                    g2 = t.pk2d(omega, dty, scale_factor=sf)
+                    g2 = t.pk2d(omega_l, dty_l, scale_factor=sf)
                     w2 = {"s_raw": props[2] / props[1], "f_raw": props[3] / props[1], "omega": omega.flat[props[4]], "dty": dty.flat[props[4]],
                           "Number_of_pixels": props[0], "sum_intensity": sI, "spot3d_id": lab}
                     for k_, v in w2.items():
